@@ -305,7 +305,11 @@ class FactBase:
     # expanded to every override (by class), lambdas are linked from the
     # function that creates them.
     def node_of(self, rec):
-        return rec.get("inst", rec["name"])
+        return rec.get("inst", rec["name"]) + rec.get("sig", "")
+
+    @staticmethod
+    def callee_node(ev):
+        return ev.get("inst", ev["callee"]) + ev.get("sig", "")
 
     def callgraph(self):
         if self._cg is not None:
@@ -334,14 +338,10 @@ class FactBase:
                 for b in r["blocks"]:
                     for ev in b["ev"]:
                         if ev["e"] in ("call", "lambda"):
-                            c = ev.get("inst", ev["callee"])
-                            if c not in self.by_inst and ev["callee"] in self.funcs \
-                                    and "inst" not in ev:
-                                # non-template callee known only by pattern
-                                c = ev["callee"]
+                            c = self.callee_node(ev)
                             out.add(c)
                             if ev.get("virt"):
-                                out.update(overriders.get(ev.get("inst", ev["callee"]), ()))
+                                out.update(overriders.get(c, ()))
         self._cg = cg
         return cg
 
